@@ -155,13 +155,16 @@ func (m *Manager) Close() error {
 	m.lock.Lock()
 	defer m.lock.Unlock()
 
+	// Every allocation is closed, also after one of them failed to: the
+	// first error is reported once all of them have been given up.
+	var firstErr error
 	for _, a := range m.allocations {
-		if err := a.Close(); err != nil {
-			return err
+		if err := a.Close(); err != nil && firstErr == nil {
+			firstErr = err
 		}
 	}
 
-	return nil
+	return firstErr
 }
 
 // CreateAllocation creates a new allocation and starts relaying.
